@@ -350,7 +350,20 @@ def gen_task(rng, tier, focus):
     struct, lengths = gen_structure(rng, tier, focus)
     task = {'structure': struct, 'argv': gen_argv(rng, tier, focus, lengths), 'cwd_pre': gen_cwd_pre(rng),
             'rng_seed': rng.randrange(1 << 30), 'inject': gen_inject(rng, focus)}
-    if focus in ('C03', 'C11') and rng.random() < 0.07:
+    if focus in ('C03', 'C11') and rng.random() < 0.06:
+        # molecules that span two chains without any -merge: two copies of a disulfide-linked pair of chain
+        # fragments (insulin A7-B7), the second copy with its chain letters in the opposite alphabetical order
+        lo_a, hi_a = 4 - rng.randint(0, 2), 9 + rng.randint(0, 2)
+        lo_b, hi_b = 25 - rng.randint(0, 2), 30 + rng.randint(0, 2)
+        ids = rng.sample('ABCDEF', 4)
+        first = sorted(ids[:2])
+        second = sorted(ids[2:], reverse=True)
+        task['structure'] = {'source': 'tier-1/3i40/3i40.pdb', 'ops': [
+            ['chain', lo_a, hi_a - lo_a, first[0], 0.0], ['chain', lo_b, hi_b - lo_b, first[1], 0.0],
+            ['copy', 0, second[0], 60.0, rng.randrange(1 << 20), 0.0], ['copy', 1, second[1], 60.0, rng.randrange(1 << 20), 0.0]]}
+        groups = split_argv(task['argv'])
+        task['argv'] = [a for g in groups if g[0] not in ('-merge', '-go', '-ss', '-cys') for a in g]
+    elif focus in ('C03', 'C11') and rng.random() < 0.07:
         # several merge groups whose members are copies of each other, listed in different chain order
         source = struct['source']
         nres = len(structure.load_source(source))
